@@ -414,6 +414,11 @@ func dnWorkload() {
 		{{"DC", ""}, {"DC", ""}, {"DC", "x"}},
 		{{"CN", "x"}, {"DC", ""}, {"DC", "corp"}, {"DC", "com"}},
 		{{"CN", ""}, {"DC", "corp"}, {"DC", "com"}},
+		// one component far longer than any buffer a reader might have sized in advance
+		{{"DC", "corp"}, {"CN", strings.Repeat("x", 65533)}, {"DC", "example"}, {"DC", "com"}},
+		{{"CN", strings.Repeat("y", 65536)}, {"DC", "example"}, {"DC", "com"}},
+		{{"CN", "a"}, {"DC", strings.Repeat("d", 70000)}, {"DC", "com"}},
+		{{"OU", strings.Repeat("z", 4096)}, {"OU", strings.Repeat("w", 131072)}, {"DC", "tail"}},
 	}
 	for i, d := range det {
 		for si, stl := range adStyles {
